@@ -1,10 +1,57 @@
 # (property id, technique, level text, DESIGN.md section)
+_SCOPE = "bounded exhaustive input-space exploration of the real code vs numpy reference model"
 TABLE = [
-    ("C01", "bounded exhaustive enumeration of all masks x storage modes vs numpy indexing reference",
+    ("C01", _SCOPE + " (all masks x storage modes)",
      "Every boolean mask of every shape up to 12 (quick) / 16 (thorough) cells, and every 1D mask up to that length, "
      "is run through the real Array2D/Grid2D/VectorYX2D/Array1D/Grid1D constructors in both input forms and both "
      "storage modes with injective and adversarial value labellings; slim/native/round-trip/index-table observables "
      "are compared exactly with numpy boolean indexing. Complete inside the bound, nothing sampled.", "4/C01"),
+    ("C02", _SCOPE + " (all shapes x scales x origins x pixels x in-pixel offsets; every step of each mask-constructor step function)",
+     "All shapes up to 6x6 x 7 pixel-scale pairs x 6 origins x every pixel x 81 in-pixel offsets through every public "
+     "conversion route, and for the shape-based mask constructors one radius inside every gap between consecutive "
+     "distinct pixel-centre radii, so every distinct mask the constructor can return for a geometry is produced; "
+     "closed-form oracle; the 1e-9 tie bands the property excludes are excluded by construction.", "4/C02"),
+    ("C03", _SCOPE + " (operator extraction on basis images for all interior masks x odd kernel shapes)",
+     "For every interior mask of frames up to 6x6 and every odd kernel shape in {1,3,5}^2 (7 in thorough) the whole "
+     "blurring operator of the real Convolver is extracted on basis images / blurring images / mapping-matrix columns "
+     "with a signed, sub-threshold coefficient alphabet and compared with a dense convolution matrix written from "
+     "the definition; even kernels must be rejected; simulator/whole-frame convolution cross-checked.", "4/C03"),
+    ("C04", _SCOPE + " (interior masks x PSF shapes/signs x ordered linear-object lists x both formalisms)",
+     "Interior masks of a 5x5 frame (and non-square-PSF frames) x non-negative and signed PSFs x ordered lists of 1..3 "
+     "linear objects (2 rectangular mappers, Delaunay mapper, non-negative and signed function lists, with/without "
+     "regularization) through the factory and both inversion classes; D, F, operated mapping matrix, block order, "
+     "symmetry, reconstruction and mapped data compared with B^T N^-1 d / B^T N^-1 B built from first principles.", "4/C04"),
+    ("C05", _SCOPE + " (all integer-lattice SPD systems x every warm start; inversion configs x solver flags)",
+     "Every SPD system A=R^T R+rho I over a small integer alphabet (n=2,3; n=4 thorough) x every right-hand side of the "
+     "alphabet x {cold start, sign-pattern warm start, every boolean warm start} is solved by the real fnnls_cholesky "
+     "and checked by the KKT certificate plus brute force over all supports; inversion level: datasets with positive, "
+     "mixed and negative data x object lists x formalisms x solver flags (KKT of the reduced system, forced zeros, "
+     "per-object mapped data).", "4/C05"),
+    ("C10", _SCOPE + " (all masks x odd kernel shapes vs brute-force set definitions)",
+     "Every mask up to 12 (16) cells, not restricted to a masked outer ring, plus windows inside larger frames, x kernel "
+     "shapes {1,3,5}^2: blurring mask (incl. the out-of-frame exception), edge and border sets with exactly the "
+     "latitude the statement gives, and agreement of slim/native/mask/grid views.", "4/C10"),
+    ("C12", _SCOPE + " (metamorphic: every entry point evaluated at origin o and o+d)",
+     "Every listed entry point (39 finding classes) is evaluated on masks/datasets built at origin o and at o+d for a "
+     "menu of translations incl. non-dyadic and large ones; coordinate results must shift by d, index/count/weight/"
+     "matrix results must be identical.", "4/C12"),
+    ("C14", _SCOPE + " (all shape pairs x kernels x masks x geometries)",
+     "All (input shape, target shape) pairs with sides 1..5 -> 1..7 (1..6 -> 1..8 thorough), all extraction windows of "
+     "small frames, odd kernels up to 7, all masks of small frames: centred window/embedding law with the parity "
+     "latitude of the statement, pad-then-trim identity, ordered (coordinate, data, noise) triples under auto-padding, "
+     "zoom window containment.", "4/C14"),
+    ("C16", _SCOPE + " + explicit-state file model (all write/delete histories to depth 3/4)",
+     "Shapes x masks x pixel scales x flip setting x routes (file and HDU; Array2D, Mask2D, Kernel2D, Array1D, Mask1D, "
+     "Imaging) round-tripped through real FITS I/O in scratch directories; overwrite semantics checked on every event "
+     "history up to depth 3 (4) against a 3-state file model.", "4/C16"),
+    ("C19", _SCOPE + " (fully exhaustive over shapes, regions, corners, windows, ranges)",
+     "All shapes up to 5x5 (6x6), all valid regions, all four read-out corners, all region x window pairs, all front/"
+     "trailing ranges and all small invalid tuples: rotation commutation/involution, extraction overlap law, sub-region "
+     "arithmetic and validation as integer identities.", "4/C19"),
+    ("C20", _SCOPE + " (all subsets of a 3x3 coordinate window x parity x flip x scale)",
+     "All 511 non-empty subsets of a 3x3 integer-coordinate window x lattice parities x flip x side lengths x offsets, in "
+     "both representations: up-sampling (children, count, area, vertices), neighbourhood as geometric sets, index "
+     "selection, representation agreement and shape containment on a 7x7 reference lattice.", "4/C20"),
 ]
 _ALL = ["C%02d" % i for i in range(1, 21)]
 _PENDING_REASON = ("check under construction in this session: machinery for this property is not yet committed "
